@@ -82,6 +82,12 @@ def configs(tier, seed):
             subs = [{"aw": rng.randint(0, 3), "feat": sub_feats(df), "sparse": False, "name": rng.choice([None, f"w{i}"]),
                      "addr": None, "align_to": rng.choice([None, None, 1, 3])} for i in range(rng.randint(0, 5))]
             cfgs.append({"aw": rng.randint(4, 7), "dw": dw, "g": g, "feat": df, "align": rng.choice([0, 0, 1, 2]), "subs": subs})
+    # the same decoders reached by other legal routes: features spelled as Feature members; refused add() calls in between
+    for k, c in enumerate(cfgs):
+        if k % 3 == 1:
+            c["enum_features"] = True
+        if k % 4 == 2:
+            c["refused_before"] = sorted({0, len(c["subs"])} if k % 8 == 2 else {len(c["subs"]) // 2})
     return cfgs
 
 
@@ -89,26 +95,53 @@ def log2(x):
     return x.bit_length() - 1
 
 
+REFUSED = []      # buses whose add() was refused in the last build(): their signals stay free environment inputs of the netlist
+
+
 def build(cfg, upto=None):
     from amaranth_soc import wishbone
     from amaranth_soc.memory import MemoryMap
     subs = []
+    del REFUSED[:]
+
+    def spell(feats):
+        # the documented alternative spelling with Feature members instead of strings: the same component must result
+        return {wishbone.Feature(f) for f in feats} if cfg.get("enum_features") else feats
 
     def add(dec, i):
         sc = cfg["subs"][i]
         sdw = sc.get("sdw", cfg["dw"])
         sg = sc.get("sg", sdw if sc["sparse"] else cfg["g"])
-        sb = wishbone.Interface(addr_width=sc["aw"], data_width=sdw, granularity=sg, features=sc["feat"], path=(f"sub{i}",))
+        sb = wishbone.Interface(addr_width=sc["aw"], data_width=sdw, granularity=sg, features=spell(sc["feat"]), path=(f"sub{i}",))
         sb.memory_map = MemoryMap(addr_width=max(1, sc["aw"] + log2(sdw // sg)), data_width=sg, alignment=sc.get("salign", 0))
         if sc.get("align_to") is not None:
             dec.align_to(sc["align_to"])
         dec.add(sb, name=sc["name"], addr=sc["addr"], sparse=sc["sparse"])
         subs.append(sb)
+    def refused_add(dec, k):
+        """an add() the decoder must refuse; afterwards it must behave as if the call had never been made"""
+        if k % 2 == 0:          # window larger than the decoder's address space
+            aw_, dw_, g_ = cfg["aw"] + 1, cfg["dw"], cfg["g"]
+        else:                    # coarser granularity than the decoder
+            aw_, dw_, g_ = 1, max(cfg["dw"], cfg["g"] * 2), cfg["g"] * 2
+            if g_ > 64:
+                aw_, dw_, g_ = cfg["aw"] + 2, cfg["dw"], cfg["g"]
+        sb = wishbone.Interface(addr_width=aw_, data_width=dw_, granularity=g_, features=cfg["feat"], path=(f"refused{k}",))
+        sb.memory_map = MemoryMap(addr_width=max(1, aw_ + log2(dw_ // g_)), data_width=g_)
+        REFUSED.append(sb)
+        try:
+            dec.add(sb, name=f"refused{k}")
+        except (ValueError, TypeError):
+            pass
     try:
-        dec = wishbone.Decoder(addr_width=cfg["aw"], data_width=cfg["dw"], granularity=cfg["g"], features=cfg["feat"],
+        dec = wishbone.Decoder(addr_width=cfg["aw"], data_width=cfg["dw"], granularity=cfg["g"], features=spell(cfg["feat"]),
                                alignment=cfg["align"])
         for i in range(len(cfg["subs"]) if upto is None else upto):
+            if i in cfg.get("refused_before", ()):
+                refused_add(dec, i)
             add(dec, i)
+        if len(cfg["subs"]) in cfg.get("refused_before", ()) and upto is None:
+            refused_add(dec, len(cfg["subs"]))
     except (ValueError, TypeError) as e:
         raise Refused(str(e))
     if upto is not None:
@@ -119,7 +152,7 @@ def build(cfg, upto=None):
 def check_config(ctx, cfg):
     dec, subs = build(cfg)
     probes = []
-    for sb in subs:
+    for sb in subs + REFUSED:          # a refused bus is somebody else's: whatever it carries must not matter to this decoder
         probes += sigs_of(sb)
     # responses the decoder does not drive at all (e.g. no subordinate) keep their reset value 0: not free inputs
     tie = [getattr(dec.bus, r) for r in ("ack", "dat_r", "err", "rty", "stall") if hasattr(dec.bus, r)]
